@@ -133,7 +133,7 @@ func c07r3(r *R) {
 		if len(p.Ret) == 2 && p.Ret[0] == hit {
 			nHit++
 			v := "(*crypto/x509.Certificate).Verify(" + hit + ".Leaf, "
-			ok := p.hasCond(func(c string) bool { return strings.HasPrefix(c, "("+v) && strings.HasSuffix(c, "#1 == nil)") })
+			ok := p.hasCond(func(c string) bool { return strings.HasPrefix(c, "!("+v) && strings.HasSuffix(c, "#1 != nil)") })
 			if !ok {
 				why = append(why, "a cached certificate is returned without a successful Leaf.Verify (expiry, chain and name are no longer checked)")
 			}
